@@ -49,7 +49,7 @@ def budget(tier):
 
 def essential_labels(tier):
     return ["op:set_leaf", "op:set_leaf_nested", "op:set_array", "op:copy", "op:move_ok", "op:move_refused_nested", "op:move_refused_refs", "op:assign_copy",
-            "op:assign_ref_share", "op:assign_ref_foreign_refused", "op:write_source_after_assign", "has_rename", "field:ref", "field:hybrid", "op:set_ref_none", "op:grow"]
+            "op:assign_ref_share", "op:assign_ref_foreign_refused", "op:write_source_after_assign", "has_rename", "field:ref", "field:hybrid", "op:set_ref_none", "op:grow", "op:refarr_data", "op:refarr_existing", "field:refarr"]
 
 
 # --------------------------------------------------------------------------
@@ -59,7 +59,7 @@ def essential_labels(tier):
 
 @st.composite
 def cases(draw, tier):
-    cfg = hybgen.HCfg(tier)
+    cfg = hybgen.HCfg(tier, allow_refarr=True)
     h = draw(hybgen.hspecs(cfg))
     # by construction at least one nested class in 3/4 of the cases
     if draw(st.integers(0, 3)) > 0 and len(hybgen.subclasses(h)) == 1:
@@ -70,11 +70,20 @@ def cases(draw, tier):
         h["fields"].append({"n": f"f{n}", "t": {"k": "hybrid", "h": inner}})
         if draw(st.booleans()):
             h["fields"].append({"n": f"f{n + 1}", "t": {"k": "ref", "h": inner}})
+    ra = [f for f in h["fields"] if f["t"]["k"] == "refarr"]
+    if draw(st.integers(0, 3)) == 0:
+        # two reference fields that can denote one and the same array
+        import copy as _copy
+
+        if not ra:
+            h["fields"].append({"n": f"f{len(h['fields'])}", "t": {"k": "refarr", "arr": {"k": "array", "name": None, "item": {"k": "scalar", "t": draw(st.sampled_from(tg.SCALARS))}, "shape": [None], "order": [0]}}})
+            ra = [h["fields"][-1]]
+        h["fields"].append({"n": f"f{len(h['fields'])}", "t": _copy.deepcopy(ra[0]["t"])})
     value = hybgen.hvalues(draw, h)
     nops = draw(st.integers(1, 40 if tier == "thorough" else 12))
     ops = []
     for _ in range(nops):
-        kind = draw(st.sampled_from(["set", "set", "set", "set_array", "set_array", "set_dict", "set_ref", "copy", "copy", "move", "move", "assign", "assign", "assign", "write_src", "grow", "read_arrays"]))
+        kind = draw(st.sampled_from(["set", "set", "set", "set_array", "set_array", "set_dict", "set_ref", "copy", "copy", "move", "move", "assign", "assign", "assign", "write_src", "grow", "read_arrays", "refarr", "refarr"]))
         op = {"op": kind, "o": draw(st.integers(0, 50)), "i": draw(st.integers(0, 1000)), "j": draw(st.integers(0, 1000)), "w": draw(assign.op_specs)}
         if kind == "copy":
             op["dest"] = draw(st.sampled_from(["default", "same", "B", "C", "Cctx"]))
@@ -87,6 +96,8 @@ def cases(draw, tier):
             op["mode"] = draw(st.sampled_from(["elem", "slice", "whole"]))
         elif kind == "set_ref":
             op["mode"] = draw(st.sampled_from(["none", "data"]))
+        elif kind == "refarr":
+            op["mode"] = draw(st.sampled_from(["none", "data", "data", "existing", "existing", "write"]))
         ops.append(op)
     return {"h": h, "value": value, "ops": ops, "place": draw(st.sampled_from(["default", "numpy", "numpy"])), "cap": draw(st.sampled_from([0, 64, 1024]))}
 
@@ -115,6 +126,9 @@ def fresh_hvalue(h, w, salt):
             out[f["n"]] = {"shape": shape, "flat": [assign.fit_value(t["item"], dict(w, int=w["int"] + s + 11 * k, float=float(k + s % 7)), 0) for k in range(n)]}
         elif t["k"] == "hybrid":
             out[f["n"]] = fresh_hvalue(t["h"], w, s)
+        elif t["k"] == "refarr":
+            n_ = (w["li"] + s) % 4
+            out[f["n"]] = None if n_ == 0 else {"shape": [n_], "flat": [assign.fit_value(t["arr"]["item"], dict(w, int=w["int"] + s + 5 * k, float=float(k + 1)), 0) for k in range(n_)]}
         else:
             out[f["n"]] = None if (w["li"] + s) % 2 == 0 else fresh_hvalue(t["h"], w, s)
     return out
@@ -132,13 +146,15 @@ def copy_model(h, v, same_buffer):
                 out[f["n"]] = None
             else:
                 out[f["n"]] = x if same_buffer else copy_model(t["h"], x, False)
+        elif t["k"] == "refarr":
+            out[f["n"]] = x if (same_buffer and x is not None) else copy.deepcopy(x)
         else:
             out[f["n"]] = copy.deepcopy(x)
     return out
 
 
 def class_has_refs(h):
-    return any(f["t"]["k"] == "ref" or (f["t"]["k"] == "hybrid" and class_has_refs(f["t"]["h"])) for f in h["fields"])
+    return any(f["t"]["k"] in ("ref", "refarr") or (f["t"]["k"] == "hybrid" and class_has_refs(f["t"]["h"])) for f in h["fields"])
 
 
 def containers(hn, model, path=()):
@@ -497,6 +513,67 @@ def run_case(case):
                 return fail("grow_raised", f"{step}: {r}", r.key, labels)
             if int(b.capacity) > cap0:
                 labels.add("op:grow")
+        elif kind == "refarr":
+            slots = [(path, cn, cm, f) for path, cn, cm in conts for f in cn.h["fields"] if f["t"]["k"] == "refarr"]
+            if not slots:
+                continue
+            path, cn, cm, f = slots[op["i"] % len(slots)]
+            tgt = sut(reach, o, n, path)
+            if is_raised(tgt) or not hasattr(tgt[0], "_xobject"):
+                continue
+            cont = tgt[0]
+            py = hybgen.pyname(cn.h, f["n"])
+            it = f["t"]["arr"]["item"]
+            anode = [k for g, k in zip(cn.h["fields"], cn.node.kids) if g["n"] == f["n"]][0].kids[0]
+            mode = op["mode"]
+            if mode == "none":
+                r = sut(setattr, cont, py, None)
+                if is_raised(r):
+                    return fail("set_ref_raised", f"{step} {'.'.join(path + [f['n']])} <- None: {r}", "refarr|" + r.key, labels)
+                cm[f["n"]] = None
+                labels.add("op:refarr_none")
+            elif mode == "data":
+                # plain data: a NEW independent array object; whatever the reference denoted before (possibly shared with
+                # another reference or a stand-alone array) is left alone
+                k_ = 1 + op["j"] % 4
+                vals = [assign.fit_value(it, dict(op["w"], int=op["w"]["int"] + 3 * q, float=float(q) + 0.5), 0) for q in range(k_)]
+                arg = vals if op["j"] % 2 else np.array(vals, dtype=mat.NP_DTYPES[it["t"]])
+                r = sut(setattr, cont, py, arg)
+                if is_raised(r):
+                    return fail("set_ref_raised", f"{step} {'.'.join(path + [f['n']])} <- data of length {k_}: {r}", "refarr|" + r.key, labels)
+                cm[f["n"]] = {"shape": [k_], "flat": vals}
+                labels.add("op:refarr_data")
+            elif mode == "existing":
+                # an existing array of the very class in the same buffer: shared (also by a second reference field of the class)
+                k_ = 1 + op["j"] % 3
+                vals = [assign.fit_value(it, dict(op["w"], int=op["w"]["int"] + 11 * q, float=float(q) - 0.25), 0) for q in range(k_)]
+                arr = sut(anode.cls, vals, _buffer=cont._buffer)
+                if is_raised(arr):
+                    return fail("construct_raised", f"{step}: {arr}", arr.key, labels)
+                shared = {"shape": [k_], "flat": vals}
+                same_t = [g for g in cn.h["fields"] if g["t"]["k"] == "refarr" and g["t"]["arr"]["item"]["t"] == it["t"]]
+                for g in same_t[: 1 + op["j"] % 2]:
+                    r = sut(setattr, cont, hybgen.pyname(cn.h, g["n"]), arr)
+                    if is_raised(r):
+                        return fail("set_ref_raised", f"{step} {g['n']} <- existing array: {r}", "refarr|" + r.key, labels)
+                    cm[g["n"]] = shared
+                labels.add("op:refarr_existing")
+                if len(same_t) > 1 and op["j"] % 2:
+                    labels.add("op:refarr_two_references_one_array")
+            else:
+                cur = cm[f["n"]]
+                if cur is None or not cur["flat"]:
+                    continue
+                q = op["j"] % len(cur["flat"])
+                new = assign.fit_value(it, op["w"], cur["flat"][q])
+                a_ = sut(getattr, cont, py)
+                if is_raised(a_) or a_ is None:
+                    return fail("attr_read_raised", f"{step}: {a_}", "refarr", labels)
+                r = sut(lambda: a_.__setitem__(q, new))
+                if is_raised(r):
+                    return fail("set_array_raised", f"{step} {'.'.join(path + [f['n']])}[{q}]: {r}", "refarr|" + r.key, labels)
+                cur["flat"][q] = new
+                labels.add("op:refarr_write_through")
         elif kind == "write_src":
             # write through any top-level object other than the first: sources, copies
             if len(entries) < 2:
